@@ -75,6 +75,26 @@ func vStoreSearchCheck(s *PersistentHybridIndex, live []vStoreDoc, everAdded map
 			}
 		}
 	}
+	if vC08Meta && s.config.TextIndexTemplate != nil {
+		// the same visibility with every search option set (they are handed to each memtable / segment search):
+		// fused vector + text queries match every live document through its vector
+		wf, _ := NewFusion(WeightedSumFusion, &FusionConfig{VectorWeight: 0.5, TextWeight: 2, K: 60})
+		for oi, hs := range []HybridSearch{
+			s.NewSearch().WithVector([]float32{5}).WithText("fox").WithFusionKind(ReciprocalRankFusion).WithScoreAggregation(MaxAggregation).WithCutoff(-1).WithEfSearch(8).WithNProbes(2).WithK(10),
+			s.NewSearch().WithVector([]float32{5}).WithText("fox", "dog").WithFusion(wf).WithScoreAggregation(MeanAggregation).WithK(10),
+			s.NewSearch().WithVector([]float32{5}).WithMetadataGroups(&FilterGroup{Filters: []Filter{Exists("c")}, Logic: AND}).WithFusionKind(MaxFusion).WithK(10),
+		} {
+			ro, eo := hs.Execute()
+			vAssert(eo == nil, label+"-search-ok")
+			got := vIDsOfHybrid(ro)
+			for _, id := range got {
+				vAssert(everAdded[id], label+"-no-never-added-document-with-options")
+			}
+			for _, d := range live {
+				vAssert(vContains(got, d.id), label+"-acknowledged-document-visible-with-options-"+string(rune('a'+oi)))
+			}
+		}
+	}
 	if s.config.TextIndexTemplate != nil {
 		rt, e3 := s.NewSearch().WithText("fox").WithK(10).Execute()
 		vAssert(e3 == nil, label+"-search-ok")
